@@ -7,6 +7,7 @@ package main
 
 import (
 	"fmt"
+	"go/token"
 	"go/types"
 	"sort"
 	"strings"
@@ -129,6 +130,8 @@ type c09An struct {
 	nWrites  int
 	nSyncs   int
 	checked  map[ssa.Instruction]bool
+	// ambiguous: some write could not be classified because its operands flow through an aggregate
+	ambiguous bool
 }
 
 const c09Bad = 5
@@ -139,6 +142,27 @@ type c09Frame struct {
 	site   ssa.CallInstruction
 	callee *ssa.Function
 	mc     *ssa.MakeClosure // when the callee is a closure: where it was created (free-variable bindings)
+	// item: when the call is made once per element of a table of structs (a loop over a slice literal), the element
+	// this frame stands for: field index -> value stored into that field; argIdx is the callee parameter that receives it
+	item   *c09Item
+	argIdx int
+}
+
+// c09Item is one element of a table of regions built in the writing function.
+type c09Item struct {
+	fields   map[int]ssa.Value
+	optional bool // appended under a condition
+	id       string
+}
+
+// c09TableLoop: a call made for every element of such a table.
+type c09TableLoop struct {
+	site    ssa.CallInstruction
+	callee  *ssa.Function
+	argIdx  int
+	header  *ssa.BasicBlock
+	exitIdx int
+	items   []*c09Item
 }
 
 // resolveClosure finds the closure a called value denotes, looking through captured variables and cells.
@@ -162,6 +186,9 @@ func stackKey(st []c09Frame) string {
 	var sb strings.Builder
 	for _, f := range st {
 		fmt.Fprintf(&sb, "%p/", f.site)
+		if f.item != nil {
+			sb.WriteString(f.item.id + "/")
+		}
 	}
 	return sb.String()
 }
@@ -174,6 +201,36 @@ func stackEnv(st []c09Frame) map[ssa.Value][]ssa.Value {
 			if i < len(cc.Args) {
 				env[p] = []ssa.Value{cc.Args[i]}
 			}
+		}
+		if f.item != nil && f.argIdx < len(f.callee.Params) {
+			// the parameter is one element of the table: its fields are the values stored into that element
+			p := f.callee.Params[f.argIdx]
+			delete(env, p)
+			// go/ssa spills a by-value struct parameter into a local when its fields are addressed
+			holders := map[ssa.Value]bool{p: true}
+			allInstrs(f.callee, func(ins ssa.Instruction) {
+				if st, ok := ins.(*ssa.Store); ok && st.Val == ssa.Value(p) {
+					if al, ok := st.Addr.(*ssa.Alloc); ok {
+						holders[al] = true
+					}
+				}
+			})
+			allInstrs(f.callee, func(ins ssa.Instruction) {
+				switch x := ins.(type) {
+				case *ssa.Field:
+					if holders[x.X] {
+						if v, ok := f.item.fields[x.Field]; ok {
+							env[x] = []ssa.Value{v}
+						}
+					}
+				case *ssa.UnOp:
+					if fa, ok := x.X.(*ssa.FieldAddr); ok && x.Op == token.MUL && holders[fa.X] {
+						if v, ok := f.item.fields[fa.Field]; ok {
+							env[x] = []ssa.Value{v}
+						}
+					}
+				}
+			})
 		}
 		mc := f.mc
 		if mc == nil {
@@ -237,8 +294,36 @@ func (a *c09An) flow(fn *ssa.Function, s int, st []c09Frame) *summary {
 	env := stackEnv(st)
 	fname := fnName(a.write)
 	rule := &flowRule{w: a.w}
+	tables := a.tableLoops(fn, env)
 	rule.inline = func(callee *ssa.Function, site ssa.CallInstruction) bool {
+		if tables[site] != nil {
+			return false // accounted for, element by element, on the loop's exit edge
+		}
 		return !a.syncFns[callee] && !a.isSync(site.(ssa.Instruction)) && a.isRelevant(callee)
+	}
+	rule.edge = func(b *ssa.BasicBlock, idx int, s2 int) (uint64, bool) {
+		for _, tl := range tables {
+			if tl.header != b || tl.exitIdx != idx {
+				continue
+			}
+			// the loop as a whole: the callee once per element, in the order of the table
+			a.checkErr(tl.site, "write helper "+tl.callee.Name())
+			states := uint64(1) << uint(s2)
+			for _, it := range tl.items {
+				var next uint64
+				bits(states, func(t int) {
+					fr := c09Frame{site: tl.site, callee: tl.callee, item: it, argIdx: tl.argIdx}
+					sm := a.flow(tl.callee, t, append(append([]c09Frame{}, st...), fr))
+					next |= sm.succ
+					if it.optional {
+						next |= 1 << uint(t)
+					}
+				})
+				states = next
+			}
+			return states, true
+		}
+		return 0, false
 	}
 	rule.dyn = func(site ssa.CallInstruction) []*ssa.Function {
 		if site.Common().IsInvoke() {
@@ -297,7 +382,12 @@ func (a *c09An) flow(fn *ssa.Function, s int, st []c09Frame) *summary {
 					a.r.Check(exact, "C09-a", fname, "write "+cls.String()+" carries the encoder's array bytes unchanged", at, "",
 						"the entries-array region is written from a value that is not exactly the array encoder's result ("+shortVal(dv)+"): its length no longer matches the array-sector arithmetic and the CRC'd bytes")
 				}
-				if cls == clsNone {
+				if cls == clsNone && c09ThroughAggregate(a.w, args[0], args[1], env) {
+					// the data or the offset reaches the write through a container (a table of regions, a struct element):
+					// which region it is, and in which order the regions are written, is not something this analysis can order
+					a.ambiguous = true
+					a.r.Undecided("C09-a", fname, "write#"+why, at, "cannot classify this device write: its data or offset flows through an aggregate (a table of regions built at run time); the order of the regions is not decided by this analysis: "+why)
+				} else if cls == clsNone {
 					a.r.Fail("C09-a", fname, "write#"+why, at, "device write whose data/offset provenance fits no region class or whose data and offset belong to different sides: "+why)
 				} else {
 					a.r.Ok("C09-a", fname, "write "+cls.String(), at, why)
@@ -416,7 +506,17 @@ func (a *c09An) checkErr(site ssa.CallInstruction, what string) {
 func c09Write(w *World, r *Report, write *ssa.Function, roles c09Roles) {
 	a := &c09An{w: w, r: r, write: write, roles: roles, relevant: map[*ssa.Function]bool{}, syncFns: map[*ssa.Function]bool{},
 		memo: map[string]*summary{}, classes: map[string]c09Class{}, reported: map[string]bool{}, checked: map[ssa.Instruction]bool{}}
+	before := len(r.Obls)
 	a.flow(write, c09State(0, 0), nil)
+	if a.ambiguous {
+		// order and sync verdicts rest on the classification that could not be made
+		for _, o := range r.Obls[before:] {
+			if o.Status == Violated && (o.Rule == "C09-b" || o.Rule == "C09-c") {
+				o.Status = Undecided
+				o.Detail = "not decided, because a device write could not be classified (see C09-a): " + o.Detail
+			}
+		}
+	}
 	if a.nSyncs == 0 {
 		r.Fail("C09-c", fnName(write), "sync call", w.relFile(write.Pos()), "no call reaching Sync() is made while writing the table")
 	}
@@ -956,4 +1056,211 @@ func paramIndex(fn *ssa.Function, v ssa.Value) int {
 		}
 	}
 	return -1
+}
+
+
+// c09ThroughAggregate: the data or the offset of a write derives from a field of a struct other than the table and
+// partition types (an element of a table of regions), i.e. it passed through a container.
+func c09ThroughAggregate(w *World, data, off ssa.Value, env map[ssa.Value][]ssa.Value) bool {
+	for _, v := range []ssa.Value{data, off} {
+		for _, rt := range w.prov(v, provOpts{env: env}).Roots {
+			if rt.Kind == RField && rt.Owner != nil {
+				switch rt.Owner.Obj().Name() {
+				case "Table", "Partition":
+				default:
+					return true
+				}
+			}
+		}
+	}
+	return false
+}
+
+
+// tableLoops finds, in fn, calls of a relevant in-module function made once per element of a slice of structs that fn
+// itself builds from composite literals (make + append, or a slice literal): `for _, r := range regions { r.write(f) }`.
+// Such a loop is analysed as the sequence of its elements (see rule.edge in flow).
+func (a *c09An) tableLoops(fn *ssa.Function, env map[ssa.Value][]ssa.Value) map[ssa.CallInstruction]*c09TableLoop {
+	out := map[ssa.CallInstruction]*c09TableLoop{}
+	for _, c := range calls(fn, false, func(c ssa.CallInstruction) bool {
+		g := c.Common().StaticCallee()
+		return g != nil && a.w.fnSet[g] && g.Blocks != nil
+	}) {
+		g := c.Common().StaticCallee()
+		loop := cycleThrough(c.Block())
+		if len(loop) == 0 || !a.isRelevant(g) {
+			continue
+		}
+		for ai, arg := range c.Common().Args {
+			ld, ok := stripConv(arg).(*ssa.UnOp)
+			var ia *ssa.IndexAddr
+			if ok && ld.Op == token.MUL {
+				ia, _ = ld.X.(*ssa.IndexAddr)
+			} else if x, isIA := stripConv(arg).(*ssa.IndexAddr); isIA {
+				ia = x // pointer receiver: &table[i]
+			}
+			if ia == nil {
+				continue
+			}
+			ixv := stripConv(ia.Index)
+			if bo, isB := ixv.(*ssa.BinOp); isB && bo.Op == token.ADD {
+				ixv = stripConv(bo.X) // go/ssa's range-index loop: phi(-1, next) + 1
+			}
+			ph, ok := ixv.(*ssa.Phi)
+			if !ok || !loop[ph.Block()] {
+				continue
+			}
+			iff, ok := lastInstr(ph.Block()).(*ssa.If)
+			if !ok {
+				continue
+			}
+			exitIdx := -1
+			for k, sc := range ph.Block().Succs {
+				if !loop[sc] {
+					exitIdx = k
+				}
+			}
+			_ = iff
+			if exitIdx < 0 {
+				continue
+			}
+			items, ok := c09SliceSeq(ia.X, 0)
+			if !ok {
+				continue
+			}
+			out[c] = &c09TableLoop{site: c, callee: g, argIdx: ai, header: ph.Block(), exitIdx: exitIdx, items: items}
+		}
+	}
+	return out
+}
+
+// c09SliceSeq resolves a slice value into the ordered list of struct elements it holds, when it is built from
+// make/append of composite literals in straight-line code with optional (conditional) appends.
+func c09SliceSeq(v ssa.Value, depth int) ([]*c09Item, bool) {
+	if depth > 12 {
+		return nil, false
+	}
+	switch x := v.(type) {
+	case *ssa.MakeSlice:
+		if k, ok := constInt(x.Len); ok && k == 0 {
+			return nil, true
+		}
+		return nil, false
+	case *ssa.Const:
+		return nil, x.IsNil()
+	case *ssa.Slice:
+		// a slice of an array literal: the elements stored into the array
+		al, ok := x.X.(*ssa.Alloc)
+		if !ok || x.Low != nil {
+			return nil, false
+		}
+		if x.High != nil {
+			// make([]T, 0, n) is lowered to new [n]T sliced [:0]
+			if k, isC := constInt(x.High); isC && k == 0 {
+				return nil, true
+			}
+			return nil, false
+		}
+		return c09ArrayItems(al)
+	case *ssa.Call:
+		b, ok := x.Call.Value.(*ssa.Builtin)
+		if !ok || b.Name() != "append" || len(x.Call.Args) != 2 {
+			return nil, false
+		}
+		base, ok := c09SliceSeq(x.Call.Args[0], depth+1)
+		if !ok {
+			return nil, false
+		}
+		more, ok := c09SliceSeq(x.Call.Args[1], depth+1)
+		if !ok {
+			return nil, false
+		}
+		return append(append([]*c09Item{}, base...), more...), true
+	case *ssa.Phi:
+		if len(x.Edges) != 2 {
+			return nil, false
+		}
+		s0, ok0 := c09SliceSeq(x.Edges[0], depth+1)
+		s1, ok1 := c09SliceSeq(x.Edges[1], depth+1)
+		if !ok0 || !ok1 {
+			return nil, false
+		}
+		if len(s0) > len(s1) {
+			s0, s1 = s1, s0
+		}
+		for i := range s0 {
+			if s0[i].id != s1[i].id {
+				return nil, false
+			}
+		}
+		outp := append([]*c09Item{}, s0...)
+		for _, it := range s1[len(s0):] {
+			cp := *it
+			cp.optional = true
+			outp = append(outp, &cp)
+		}
+		return outp, true
+	}
+	return nil, false
+}
+
+// c09ArrayItems: the struct elements stored, at constant indices, into a local array (the backing store of a slice
+// literal or of the variadic arguments of append).
+func c09ArrayItems(al *ssa.Alloc) ([]*c09Item, bool) {
+	arr, ok := deref(al.Type()).Underlying().(*types.Array)
+	if !ok {
+		return nil, false
+	}
+	items := make([]*c09Item, arr.Len())
+	for i := range items {
+		items[i] = &c09Item{fields: map[int]ssa.Value{}, id: fmt.Sprintf("%p#%d", al, i)}
+	}
+	okAll := true
+	for _, ref := range *al.Referrers() {
+		switch r := ref.(type) {
+		case *ssa.IndexAddr:
+			k, isC := constInt(r.Index)
+			if !isC || k < 0 || int(k) >= len(items) {
+				okAll = false
+				continue
+			}
+			for _, u := range *r.Referrers() {
+				switch y := u.(type) {
+				case *ssa.FieldAddr:
+					for _, u2 := range *y.Referrers() {
+						if st, ok := u2.(*ssa.Store); ok && st.Addr == ssa.Value(y) {
+							items[k].fields[y.Field] = st.Val
+						}
+					}
+				case *ssa.Store:
+					// whole-struct store of a composite literal built in a local: its field stores
+					if y.Addr != ssa.Value(r) {
+						continue
+					}
+					ld, isLd := y.Val.(*ssa.UnOp)
+					var lit *ssa.Alloc
+					if isLd && ld.Op == token.MUL {
+						lit, _ = ld.X.(*ssa.Alloc)
+					}
+					if lit == nil {
+						okAll = false
+						continue
+					}
+					for _, u2 := range *lit.Referrers() {
+						if fa, ok := u2.(*ssa.FieldAddr); ok {
+							for _, u3 := range *fa.Referrers() {
+								if st, ok := u3.(*ssa.Store); ok && st.Addr == ssa.Value(fa) {
+									items[k].fields[fa.Field] = st.Val
+								}
+							}
+						}
+					}
+				}
+			}
+		case *ssa.Slice:
+		default:
+			okAll = false
+		}
+	}
+	return items, okAll
 }
